@@ -58,6 +58,7 @@ var props = []Prop{
 			{Name: "engine-faults", Engine: "engsim", Quick: 3000, Thorough: 300000, Knobs: map[string]string{"faults": "on"}, Timeout: 60 * time.Second},
 			{Name: "grpc-nofault", Engine: "grpcsim", Bin: "ov-cmd", Quick: 1000, Thorough: 50000, Knobs: map[string]string{"faults": "off"}, Timeout: 60 * time.Second},
 			{Name: "grpc-faults", Engine: "grpcsim", Bin: "ov-cmd", Quick: 2000, Thorough: 100000, Knobs: map[string]string{"faults": "on"}, Timeout: 60 * time.Second},
+			{Name: "websocket", Engine: "wssim", Bin: "ov-cmd", Quick: 1500, Thorough: 60000, Timeout: 60 * time.Second},
 		},
 	},
 	{
